@@ -554,3 +554,180 @@ Lemma block_decode_is_brun1' : forall d buf, bwf d ->
 Proof.
   intros d buf Hw. apply block_decode_is_brun1; [exact Hw|]. unfold block_fuel. pose proof (bslack_bounds d). lia.
 Qed.
+
+(* ------------------------------------------------------------------ the block phase of the OCF reader *)
+Lemma bstate_eq_dec (a b : bstate) : {a = b} + {a <> b}.
+Proof. decide equality. Qed.
+Lemma list_nil_dec {A} (l : list A) : {l = []} + {l <> []}.
+Proof. destruct l; [left; reflexivity|right; discriminate]. Qed.
+Lemma brun1_nil d : brun1 d [] = (d, [], true).
+Proof. reflexivity. Qed.
+
+Lemma beps_not_finished d : bd_state d <> BFinished -> bd_state (beps d) <> BFinished.
+Proof.
+  unfold beps. destruct d as [st count data sync v rem]. destruct st; cbn [bd_state bd_rem]; intros H; try exact H.
+  destruct (rem =? 0); cbn [bd_state]; discriminate.
+Qed.
+
+Lemma brun1_finished d bs : bd_state d = BFinished -> brun1 d bs = (d, bs, true).
+Proof.
+  intros H. destruct bs as [|b r]; [reflexivity|]. cbn [brun1].
+  assert (E : beps d = d) by (unfold beps; rewrite H; reflexivity). rewrite E, H. reflexivity.
+Qed.
+
+Lemma brun1_ok_shape : forall bs d d1 l1, brun1 d bs = (d1, l1, true) ->
+  (exists p, bs = p ++ l1) /\ (l1 <> [] -> bd_state d1 = BFinished).
+Proof.
+  induction bs as [|b r IH]; intros d d1 l1 H; cbn [brun1] in H.
+  - inversion H; subst. split; [exists []; reflexivity|congruence].
+  - destruct (bd_state (beps d)) eqn:Es;
+      try (destruct (bconsume (beps d) b) as [d2|]; [|discriminate];
+           apply IH in H; destruct H as [[p Hp] Hf]; split; [exists (b :: p); now rewrite Hp|exact Hf]).
+    inversion H; subst. split; [exists []; reflexivity|intros _; exact Es].
+Qed.
+
+Lemma brun1_progress : forall bs d d1 l1, bd_state d <> BFinished -> bs <> [] ->
+  brun1 d bs = (d1, l1, true) -> (length l1 < length bs)%nat.
+Proof.
+  intros bs d d1 l1 Hs Hne H. destruct bs as [|b r]; [congruence|]. cbn [brun1] in H.
+  pose proof (beps_not_finished d Hs) as Hs1.
+  destruct (bd_state (beps d)) eqn:Es; try congruence;
+    (destruct (bconsume (beps d) b) as [d2|]; [|discriminate];
+     apply brun1_ok_shape in H; destruct H as [[p Hp] _]; cbn [length]; rewrite Hp, app_length; lia).
+Qed.
+
+Lemma fill_buf_spec : forall chunks buf rest, fill_buf chunks = (buf, rest) ->
+  concat chunks = buf ++ concat rest /\ (buf = [] -> rest = []).
+Proof.
+  induction chunks as [|c cs IH]; intros buf rest H; cbn [fill_buf] in H.
+  - inversion H; subst. split; [reflexivity|reflexivity].
+  - destruct c as [|x c].
+    + apply IH in H. cbn [concat app]. exact H.
+    + inversion H; subst. split; [reflexivity|discriminate].
+Qed.
+
+Lemma block_flush_finished d : bd_state d = BFinished ->
+  block_flush d = (Some (bd_count d, bd_data d, bd_sync d), MkBdec BCount 0 [] [] (bd_vlq d) (bd_rem d)).
+Proof. intros H. unfold block_flush. rewrite H. reflexivity. Qed.
+Lemma block_flush_other d : bd_state d <> BFinished -> block_flush d = (None, d).
+Proof. intros H. unfold block_flush. destruct (bd_state d); try reflexivity. congruence. Qed.
+
+Definition blocks1_body (f : nat) (sync : list N) (vals : list Z) (r : bdec * list N * bool) : list Z * Z :=
+  let '(d', lft, ok) := r in
+  if negb ok then ([], 2%Z)
+  else match block_flush d' with
+       | (Some (count, data, bsync), d'') =>
+           if negb (list_eqb bsync sync) then ([], 2%Z)
+           else match data with
+                | [] => blocks1 f sync d'' lft vals
+                | _ :: _ => match get_longs (N.to_nat count) data with
+                            | None => ([], 2%Z)
+                            | Some (zs, []) => blocks1 f sync d'' lft (vals ++ zs)
+                            | Some (_, _ :: _) => ([], 3%Z)
+                            end
+                end
+       | (None, _) => (vals, 0%Z)
+       end.
+Lemma blocks1_unfold f sync d bytes vals : bytes <> [] ->
+  blocks1 (S f) sync d bytes vals = blocks1_body f sync vals (brun1 d bytes).
+Proof. intros H. destruct bytes; [congruence|reflexivity]. Qed.
+Lemma app_not_nil {A} (a b : list A) : a <> [] -> a ++ b <> [].
+Proof. destruct a; [congruence|discriminate]. Qed.
+
+(* skipping ahead inside one block does not change what the flat loop computes *)
+Lemma blocks1_skip f sync d c R d1 vals : R <> [] -> c <> [] ->
+  brun1 d c = (d1, [], true) -> bd_state d1 <> BFinished ->
+  blocks1 f sync d (c ++ R) vals = blocks1 f sync d1 R vals.
+Proof.
+  intros HR Hc Hb Hs. destruct f as [|f]; [reflexivity|].
+  rewrite blocks1_unfold by (apply app_not_nil, Hc). rewrite (blocks1_unfold f sync d1 R vals HR).
+  rewrite brun1_app, Hb. reflexivity.
+Qed.
+
+(* M = S for the block phase: reading the blocks from any chunked BufRead gives the values and
+   status of the flat byte-automaton loop on the concatenated bytes *)
+Theorem read_blocks_flat : forall n chunks f1 f2 sync d trace vals,
+  bwf d -> bd_state d <> BFinished ->
+  (length (concat chunks) <= n)%nat -> (n < f1)%nat -> (n < f2)%nat ->
+  (let '(_, v, st) := read_blocks f1 sync d chunks trace vals in (v, st))
+  = blocks1 f2 sync d (concat chunks) vals.
+Proof.
+  induction n as [|n IH]; intros chunks f1 f2 sync d trace vals Hw Hs Hn H1 H2.
+  - destruct f1 as [|f1]; [lia|]. destruct f2 as [|f2]; [lia|]. cbn [read_blocks].
+    destruct (fill_buf chunks) as [buf rest] eqn:Ef. apply fill_buf_spec in Ef. destruct Ef as [Ec _].
+    destruct buf as [|b buf]; [|rewrite Ec in Hn; cbn [app length] in Hn; lia].
+    assert (E0 : concat chunks = []) by (destruct (concat chunks); [reflexivity|cbn [length] in Hn; lia]).
+    rewrite E0. reflexivity.
+  - destruct f1 as [|f1]; [lia|]. cbn [read_blocks].
+    destruct (fill_buf chunks) as [buf rest] eqn:Ef. apply fill_buf_spec in Ef. destruct Ef as [Ec Er].
+    destruct buf as [|b0 buf0].
+    { rewrite (Er eq_refl) in Ec. cbn [concat app] in Ec. rewrite Ec. destruct f2; [lia|reflexivity]. }
+    remember (b0 :: buf0) as buf eqn:Eb. assert (Hbne : buf <> []) by (rewrite Eb; discriminate).
+    set (R := concat rest) in *.
+    pose proof (block_decode_is_brun1' d buf Hw) as [Hok Heq].
+    destruct (block_decode (block_fuel buf) d buf) as [[d' lft] ok] eqn:Ed.
+    destruct (brun1 d buf) as [[d1 l1] ok1] eqn:Eb1. cbn [snd] in Hok, Heq. subst ok1.
+    destruct ok.
+    2:{ (* error inside the chunk *)
+      cbn [negb]. rewrite Ec. destruct f2 as [|f2]; [lia|].
+      rewrite blocks1_unfold by (apply app_not_nil, Hbne). rewrite brun1_app, Eb1.
+      destruct l1; reflexivity. }
+    specialize (Heq eq_refl). inversion Heq; subst d' lft. clear Heq. cbn [negb].
+    pose proof (brun1_ok_shape buf d d1 l1 Eb1) as [[p Hp] Hfin].
+    pose proof (brun1_progress buf d d1 l1 Hs Hbne Eb1) as Hprog.
+    pose proof (brun1_wf buf d d1 l1 Hw Eb1) as Hw1.
+    assert (Hcat : concat (l1 :: rest) = l1 ++ R) by reflexivity.
+    assert (Hlen : (length (l1 ++ R) <= n)%nat).
+    { rewrite Ec in Hn. rewrite app_length in *. lia. }
+    destruct (bstate_eq_dec (bd_state d1) BFinished) as [Hf|Hnf].
+    + (* a complete block *)
+      rewrite (block_flush_finished d1 Hf).
+      assert (Hflat : brun1 d (buf ++ R) = (d1, l1 ++ R, true)).
+      { rewrite brun1_app, Eb1. destruct l1 as [|y l1]; [|reflexivity]. cbn [app]. apply brun1_finished, Hf. }
+      rewrite Ec. destruct f2 as [|f2]; [lia|].
+      rewrite blocks1_unfold by (apply app_not_nil, Hbne). rewrite Hflat. unfold blocks1_body.
+      cbn [negb]. rewrite (block_flush_finished d1 Hf).
+      destruct (list_eqb (bd_sync d1) sync); cbn [negb]; [|reflexivity].
+      assert (Hw0 : bwf (MkBdec BCount 0 [] [] (bd_vlq d1) (bd_rem d1))) by exact I.
+      assert (Hs0 : bd_state (MkBdec BCount 0 [] [] (bd_vlq d1) (bd_rem d1)) <> BFinished) by (cbn; discriminate).
+      destruct (bd_data d1) as [|x xs].
+      * rewrite <- Hcat. apply IH; try assumption; try lia; (rewrite Hcat; exact Hlen).
+      * destruct (get_longs (N.to_nat (bd_count d1)) (x :: xs)) as [[zs [|z zr]]|]; try reflexivity.
+        rewrite <- Hcat. apply IH; try assumption; try lia; (rewrite Hcat; exact Hlen).
+    + (* the chunk ended inside a block *)
+      assert (Hl1 : l1 = []) by (destruct l1; [reflexivity|exfalso; apply Hnf, Hfin; discriminate]).
+      subst l1. rewrite (block_flush_other d1 Hnf). rewrite Ec.
+      destruct (list_nil_dec R) as [HR|HR].
+      * (* nothing follows: finished = true *)
+        assert (Hrest : forall tr, read_blocks f1 sync d1 ([] :: rest) tr vals = (tr, vals, 0%Z)).
+        { intros tr. destruct f1 as [|f1]; [lia|]. cbn [read_blocks fill_buf].
+          destruct (fill_buf rest) as [b2 r2] eqn:Ef2. apply fill_buf_spec in Ef2. destruct Ef2 as [Ec2 _].
+          fold R in Ec2. rewrite HR in Ec2. destruct b2; [reflexivity|discriminate]. }
+        rewrite Hrest. rewrite HR, app_nil_r. destruct f2 as [|f2]; [lia|].
+        rewrite blocks1_unfold by exact Hbne. rewrite Eb1. unfold blocks1_body. cbn [negb]. rewrite (block_flush_other d1 Hnf). reflexivity.
+      * rewrite (blocks1_skip f2 sync d buf R d1 vals HR Hbne Eb1 Hnf).
+        change R with (concat ([] :: rest)). apply IH; try assumption; try lia;
+          (cbn [concat app]; fold R; cbn [app] in Hlen; exact Hlen).
+Qed.
+
+Lemma read_blocks_flat' : forall chunks f1 f2 sync d trace vals,
+  bwf d -> bd_state d <> BFinished ->
+  (length (concat chunks) < f1)%nat -> (length (concat chunks) < f2)%nat ->
+  (let '(_, v, st) := read_blocks f1 sync d chunks trace vals in (v, st))
+  = blocks1 f2 sync d (concat chunks) vals.
+Proof.
+  intros chunks f1 f2 sync d trace vals Hw Hs H1 H2.
+  apply (read_blocks_flat (length (concat chunks))); try assumption. apply Nat.le_refl.
+Qed.
+
+Lemma read_blocks_chunk_independent : forall c1 c2 f1 f2 sync d t1 t2 vals,
+  bwf d -> bd_state d <> BFinished -> concat c1 = concat c2 ->
+  (length (concat c1) < f1)%nat -> (length (concat c2) < f2)%nat ->
+  (let '(_, v, st) := read_blocks f1 sync d c1 t1 vals in (v, st))
+  = (let '(_, v, st) := read_blocks f2 sync d c2 t2 vals in (v, st)).
+Proof.
+  intros c1 c2 f1 f2 sync d t1 t2 vals Hw Hs E H1 H2.
+  rewrite (read_blocks_flat' c1 f1 f1 sync d t1 vals Hw Hs H1 H1).
+  rewrite (read_blocks_flat' c2 f2 f1 sync d t2 vals Hw Hs H2 ltac:(rewrite <- E; exact H1)).
+  now rewrite E.
+Qed.
